@@ -238,6 +238,20 @@ def main(tier, only=None):
             fsweep._cache[name] = open(p, 'rb').read(); os.unlink(p)
             bases = bases + [name]
             growwin[name] = [4097 + 256 * k for k in (1, 8, 15, 16, 17, 24, 40, 47, 48, 49, 56)] + [8192, 8193, 8194, 8449, 10240, 12288, 16384, 16385, 16641]
+        # meta_bg filesystems grown into and across meta groups (32 descriptors per 1 KiB block): the first, second and last group of a meta group carry descriptor copies
+        for name, opts, ng in ((('metabg_g20', ['-t', 'ext2', '-O', 'meta_bg,^resize_inode'], 20), ('metabg_g1', ['-t', 'ext4', '-O', '^has_journal,meta_bg,^resize_inode'], 1)) if quick else
+                               (('metabg_g20', ['-t', 'ext2', '-O', 'meta_bg,^resize_inode'], 20), ('metabg_g1', ['-t', 'ext4', '-O', '^has_journal,meta_bg,^resize_inode'], 1),
+                                ('metabg64_g30', ['-t', 'ext4', '-O', '^has_journal,meta_bg,64bit,metadata_csum,^resize_inode'], 30), ('metabg_noflex_g20', ['-t', 'ext4', '-O', '^has_journal,meta_bg,^resize_inode,^flex_bg,^uninit_bg,^metadata_csum'], 20))):
+            p = os.path.join(scratch(), name + '.img')
+            rc, out = run([tool('mke2fs'), '-q', '-F', '-b', '1024', '-g', '256', '-N', str(16 * max(ng, 2)), '-U', '6b33f586-a183-4383-921d-30ab132db9b9'] + opts + [p, str(ng * 256 + 1)], timeout=120)
+            if rc != 0: log('C08: runtime base %s: mke2fs exit %s' % (name, rc)); continue
+            sm = os.path.join(scratch(), 'mb.small'); open(sm, 'wb').write(b'metabg' * 500)
+            sp = os.path.join(scratch(), 'mb.dbg'); open(sp, 'w').write('write %s /s1\nmkdir /d\nwrite %s /d/s2\nsymlink /d/l %s\n' % (sm, sm, 'y' * 80))
+            run([DBG, '-w', '-f', sp, p], timeout=120)
+            if run([E2FSCK, '-fn', p], timeout=120)[0] != 0: log('C08: runtime base %s not usable' % name); continue
+            fsweep._cache[name] = open(p, 'rb').read(); os.unlink(p)
+            bases = bases + [name]
+            growwin[name] = [g * 256 + 1 for g in (2, 3, 16, 30, 31, 32, 33, 34, 40, 63, 64, 65, 66, 96, 97) if g > ng] + [ng * 256 + 100]
     TREES = {b: xtree.tree(Image(fsweep.base_data(b))) for b in bases}
     jobs = []
     for b in bases:
